@@ -4,6 +4,7 @@ import BeffVerif.Props.C13Tree
 import BeffVerif.Props.C13Rec
 import BeffVerif.Props.C13Names
 import BeffVerif.Props.C13Total
+import BeffVerif.Props.C13Hash32
 open BeffVerif.C13
 #print axioms writer_digest_eq_spec
 #print axioms writer_digest_eq_spec_param
@@ -37,3 +38,5 @@ open BeffVerif.C13
 #print axioms BeffVerif.C13N.hash32_property_order
 #print axioms BeffVerif.C13T.h256_total
 #print axioms BeffVerif.C13T.hash256Toks_total
+#print axioms BeffVerif.C13N.hash32_alias_hop
+#print axioms BeffVerif.C13N.hash32_member_order
